@@ -109,6 +109,16 @@ func rangeEnumCheck(r *vrt.Result) string {
 			}
 			break
 		}
+		if strings.HasSuffix(f, "goexit") {
+			// the callback never returned: nothing is committed and the value in flight is rolled back
+			if _, m := expect("rollback"); m != "" {
+				return m
+			}
+			if _, m := expect("ret goexit"); m != "" {
+				return m
+			}
+			break
+		}
 		if strings.HasSuffix(f, "true+cancel") {
 			cancelled = true
 		}
